@@ -271,6 +271,7 @@ while true:
         s = s + 4
     end
 end""", ['s', 'a']),
+("flip_uninit", "x = 0\nwhile true:\n    y = 1 - y\n    x = x + y\nend", ["x", "y"]),      # D27: sympy summation fails on the whole summand with base -1
 ("d18_uninit_under_guard", """x = 3
 c = 0
 while c == 1:
